@@ -332,6 +332,7 @@ impl<'a> Run<'a> {
     fn make_sig(&mut self, u: u32, msg: &[u8], alt_msg: &[u8], sig: &Sig) -> (String, Option<u32>) {
         match sig {
             Sig::Good => (self.sign_cached(u, msg), Some(u)),
+            Sig::GoodUpper => (self.sign_cached(u, msg).to_ascii_uppercase(), Some(u)),
             Sig::OtherMessage(_) => (self.sign_cached(u, alt_msg), None),
             Sig::OtherUser(u2) => (self.sign_cached(*u2, msg), Some(*u2)),
             Sig::Truncated(n) => {
@@ -985,7 +986,16 @@ impl<'a> Run<'a> {
         let resp = match &r {
             Ok(resp) => resp.clone(),
             Err(e) => {
-                vs.push(viol("C07", "valid_request_refused", format!("{at}: valid request (needs {diff}, has {}) refused: {e:?}", m.available)));
+                if e.msg.starts_with("Your subscription expired") {
+                    // C09: usable exactly while the height is below the expiry
+                    vs.push(viol(
+                        "C09",
+                        "add_refused_as_expired_before_expiry",
+                        format!("{at}: height {} is below the expiry {} but the request was refused: {e:?}", self.model.h, m.expiry),
+                    ));
+                } else {
+                    vs.push(viol("C07", "valid_request_refused", format!("{at}: valid request (needs {diff}, has {}) refused: {e:?}", m.available)));
+                }
                 self.report(vs);
                 return (tu, tr);
             }
@@ -1162,6 +1172,12 @@ impl<'a> Run<'a> {
                     if !matches!(&r, Err(e) if e.code == tonic::Code::Unauthenticated && e.msg == want) {
                         vs.push(viol("C09", "get_after_expiry", format!("{at}: expected '{want}', got {}", short(&r))));
                     }
+                } else if matches!(&r, Err(e) if e.msg.starts_with("Your subscription expired")) {
+                    vs.push(viol(
+                        "C09",
+                        "get_refused_as_expired_before_expiry",
+                        format!("{at}: height {} is below the expiry {} but the request was refused: {}", self.model.h, m.expiry, short(&r)),
+                    ));
                 } else {
                     vs.extend(self.check_get_reply(eu, d, &r));
                 }
@@ -1199,6 +1215,12 @@ impl<'a> Run<'a> {
                     if !matches!(&r, Err(e) if e.code == tonic::Code::Unauthenticated && e.msg == want) {
                         vs.push(viol("C09", "subinfo_after_expiry", format!("{at}: expected '{want}', got {}", short(&r))));
                     }
+                } else if matches!(&r, Err(e) if e.msg.starts_with("Your subscription expired")) {
+                    vs.push(viol(
+                        "C09",
+                        "subinfo_refused_as_expired_before_expiry",
+                        format!("{at}: height {} is below the expiry {} but the request was refused: {}", self.model.h, m.expiry, short(&r)),
+                    ));
                 } else {
                     match &r {
                         Ok(info) => {
@@ -1891,7 +1913,7 @@ impl<'a> Run<'a> {
             Some(Op::Add { u, d, blob, tsd, sig }) => {
                 self.model.probe("crash_in_add");
                 let eu = match sig {
-                    Sig::Good => Some(u),
+                    Sig::Good | Sig::GoodUpper => Some(u),
                     Sig::OtherUser(u2) => Some(u2),
                     _ => None,
                 };
